@@ -19,10 +19,12 @@ package app
 //@   ensures[retries] ret0 != nil && __fresh(ret0) && ret0.retries == 3
 
 //@ func (p *SocketAppProxyClient) CommitBlock(block hashgraph.Block) (proxy.CommitResponse, error)
+//@   call call assert[own-reply] __owned(__arg(2))
 //@   requires p != nil && p.retries >= 1
 //@   ensures[error-reported] (ret1 == nil) == (__lastret("call", 0) == nil)
 
 //@ func (p *SocketAppProxyClient) GetSnapshot(blockIndex int) ([]byte, error)
+//@   call call assert[own-reply] __owned(__arg(2))
 //@   requires p != nil && p.retries >= 1
 //@   ensures[error-reported] (ret1 == nil) == (__lastret("call", 0) == nil)
 
